@@ -20,7 +20,7 @@ META = {
                    "compiled from the current source and run on numpy object arrays of symbols for all 8 combinations of reverse_current / psi_divide_twopi / reverse_Bt "
                    "and with extrapolate_profiles on/off; afterwards the *caller's* array objects are compared element by element with their original contents.",
     "bounds": "psi2D 2x2, psi1D/fpol1D/pressure of length 3 (contents symbolic); the three flags enumerated; extrapolate_profiles False/True",
-    "out": "run-to-run numerical identity, YAML round trip, CLI regeneration from embedded inputs, hidden state across constructions in one interpreter (I/O and whole-pipeline facts); "
+    "out": "run-to-run numerical identity, CLI regeneration from embedded inputs (the completeness of the embedded option set and the unchanged geqdsk text are decided), hidden state across constructions in one interpreter (I/O and whole-pipeline facts); "
            "only the 'does not modify the caller's input arrays' clause of C14 is decided",
     "assumptions": ["the caller passes numpy arrays (in-place operators act on the caller's buffer)"],
 }
@@ -43,7 +43,7 @@ def mkarr(env, name, shape, **kw):
     return a
 
 
-def run_prologue(env, rc, d2pi, rbt, extrap, with_pressure=True, psi_sol=None, arrays=None, decreasing=False):
+def run_prologue(env, rc, d2pi, rbt, extrap, with_pressure=True, psi_sol=None, arrays=None, decreasing=False, psi_sol_inner=None):
     fn, info = prologue()
     if arrays is None:
         psi2D = mkarr(env, "psi2D", (2, 2))
@@ -59,7 +59,7 @@ def run_prologue(env, rc, d2pi, rbt, extrap, with_pressure=True, psi_sol=None, a
     orig = {"psi2D": psi2D.copy(), "psi1D": psi1D.copy(), "fpol1D": fpol1D.copy(), "pressure": None if pressure is None else pressure.copy()}
     given = {"psi2D": psi2D, "psi1D": psi1D, "fpol1D": fpol1D, "pressure": pressure}
     me = types.SimpleNamespace(user_options=types.SimpleNamespace(reverse_current=rc, psi_divide_twopi=d2pi, reverse_Bt=rbt, extrapolate_profiles=extrap,
-                                                                 psi_sol=psi_sol, psi_sol_inner=psi_sol))
+                                                                 psi_sol=psi_sol, psi_sol_inner=psi_sol if psi_sol_inner is None else psi_sol_inner))
     pa, pb = env.real("psi_axis_gfile"), env.real("psi_bdry_gfile")
     import warnings
     with warnings.catch_warnings():
@@ -156,6 +156,47 @@ def _mk_settings(rc, d2pi, rbt):
     return body
 
 
+def ob_provenance(env):
+    """writeGridfile: the embedded YAML is loadable and holds EVERY evaluated option of the equilibrium (general and non-orthogonal) and of the mesh with its
+    value; the geqdsk text written is the very string the equilibrium kept (structural: no arithmetic to decide)"""
+    import ast
+    import inspect
+    import textwrap
+    import yaml
+    import hypnotoad.core.mesh as meshm
+    src = textwrap.dedent(inspect.getsource(meshm.BoutMesh.writeGridfile))
+    f0 = ast.parse(src).body[0]
+    body = [n for n in f0.body if isinstance(n, ast.With)][0].body
+    i0 = next(i for i, n in enumerate(body) if isinstance(n, ast.Assign) and ast.unparse(n.targets[0]) == "options_dict")
+    i1 = next(i for i, n in enumerate(body) if isinstance(n, ast.If) and "geqdsk_input" in ast.unparse(n.test))
+    f2 = ast.FunctionDef(name="provenance", args=ast.arguments(posonlyargs=[], args=[ast.arg("self"), ast.arg("f")], kwonlyargs=[], kw_defaults=[], defaults=[]),
+                         body=body[i0:i1 + 1], decorator_list=[], returns=None, type_comment=None, type_params=[])
+    m = ast.Module(body=[f2], type_ignores=[])
+    ast.fix_missing_locations(m)
+    ns = dict(meshm.__dict__)
+    exec(compile(m, "<writeGridfile provenance>", "exec"), ns)
+    # which of the option sets contributes a key is chosen by the explorer: every key must survive wherever it comes from
+    eq_opts = {"nx_core": 7, "psinorm_sol": 1.25, "reverse_current": True, "refine_methods": ["integrate+newton", "integrate"]}
+    no_opts = {"nonorthogonal_xpoint_poloidal_spacing_length": 0.375, "nonorthogonal_spacing_method": "combined"}
+    mesh_opts = {"y_boundary_guards": 3, "curvature_type": "curl(b/B)", "refine_methods": ["integrate+newton", "integrate"]}
+    text = "  EFIT  synthetic geqdsk text\n 1.000000000E+00-2.500000000E-01\n"
+    written, attrs = {}, {}
+    fobj = types.SimpleNamespace(write=lambda k, v: written.__setitem__(k, v), write_file_attribute=lambda k, v: attrs.__setitem__(k, v))
+    me = types.SimpleNamespace(user_options=mesh_opts, version="v", git_hash=None, git_diff=None,
+                               equilibrium=types.SimpleNamespace(user_options=eq_opts, nonorthogonal_options=no_opts, geqdsk_filename="file.g", geqdsk_input=text))
+    ns["provenance"](me, fobj)
+    env.witness("written")
+    y = written.get("hypnotoad_inputs_yaml")
+    env.claim("yaml_written_as_text", isinstance(y, str))
+    loaded = yaml.safe_load(y) if isinstance(y, str) else {}
+    for name, opts in (("equilibrium", eq_opts), ("nonorthogonal", no_opts), ("mesh", mesh_opts)):
+        for k, v in opts.items():
+            env.claim("embedded_yaml_has_every_%s_option_with_its_value" % name, k in loaded and loaded[k] == v)
+    env.claim("embedded_yaml_has_nothing_else", set(loaded) == set(eq_opts) | set(no_opts) | set(mesh_opts))
+    env.claim("embedded_geqdsk_text_is_the_stored_string_unchanged", written.get("hypnotoad_input_geqdsk_file_contents") is text)
+    env.claim("geqdsk_filename_recorded", attrs.get("hypnotoad_geqdsk_filename") == "file.g")
+
+
 def _mk(rc, d2pi, rbt, extrap):
     def body(env):
         loc, orig, given, me, _ = run_prologue(env, rc, d2pi, rbt, extrap, psi_sol=None if not extrap else 99.0)
@@ -191,6 +232,9 @@ for _rc, _d, _rb in ((False, False, False), (True, True, True), (True, False, Fa
                           encodes=["hypnotoad.cases.tokamak:TokamakEquilibrium.__init__"],
                           desc="from the first statement of the constructor: the caller's settings / nonorthogonal_settings dictionaries and R1D, Z1D are left as they were",
                           stubs=["(real optionsfactory)"], bounds="reverse_current=%s psi_divide_twopi=%s reverse_Bt=%s" % (_rc, _d, _rb)))
+OBLIGATIONS.append(Ob("embedded_inputs_complete", ob_provenance, tier="quick", family="provenance", encodes=["hypnotoad.core.mesh:BoutMesh.writeGridfile"],
+                      desc="hypnotoad_inputs_yaml is loadable and contains every evaluated equilibrium, non-orthogonal and mesh option; the geqdsk text is embedded unchanged",
+                      stubs=["DataFile -> recorder", "(real yaml.dump / safe_load on concrete option values)"], bounds="3 small option sets; structural"))
 import harness.c11 as _c11  # noqa: E402
 for _n in (3, 4):
     OBLIGATIONS.append(Ob("wall_list_unmodified_%d_vertices" % _n, _c11._mk_orientation(_n), tier="quick", family="prologue",
